@@ -26,10 +26,10 @@ def plan(tier, seed):
 
 def thresholds(tier):
   t = {"designs": 120, "elaborations": 1500, "nets_compared": 10000, "designs_with_10_orders": 100, "member_value_comparisons": 5000,
-       "adjacency_comparisons": 1000, "sibling_chain_designs": 80, "interface_connections_in_both_orientations": 80}
+       "adjacency_comparisons": 1000, "sibling_chain_designs": 80, "interface_connections_in_both_orientations": 80, "constant_template_designs": 80}
   if tier == "thorough":
     t = {k: v * 12 for k, v in t.items()}
-    t["sibling_chain_designs"] = 600; t["interface_connections_in_both_orientations"] = 600      # 60 per shard
+    t["sibling_chain_designs"] = 600; t["interface_connections_in_both_orientations"] = 600; t["constant_template_designs"] = 600      # 60 per shard
   return t
 
 
@@ -325,8 +325,54 @@ def run_ifc_swap(sh, case):
     G.unload(mod)
 
 
+CONST_TMPL_SRC = """
+from pymtl3 import *
+@bitstruct
+class CPt:
+  idx: Bits4
+  val: Bits8
+class CTTop(Component):
+  # ONE constant object used as a template: updated in place between the connections it is used in
+  def construct(s, vals, struct):
+    n = len(vals)
+    if struct:
+      s.o = [OutPort(CPt) for _ in range(n)]
+      k = CPt(0, 0)
+      for i in range(n):
+        k.idx @= i; k.val @= vals[i]
+        s.o[i] //= k
+    else:
+      s.o = [OutPort(8) for _ in range(n)]
+      k = Bits8(0)
+      for i in range(n):
+        k @= vals[i]
+        s.o[i] //= k
+"""
+
+
+def run_const_template(sh, case):
+  """a connection to a constant takes the VALUE the constant has at that moment: a template object that the construction code
+  updates in place between two connections leaves each port with its own value"""
+  from pymtl3 import DefaultPassGroup
+  rng = sh.rng("consttmpl", case)
+  vals = [rng.getrandbits(8) for _ in range(rng.randrange(2, 5))]
+  struct = rng.random() < 0.5
+  mod = G.load_source(CONST_TMPL_SRC, "c08ct")
+  try:
+    top = mod.CTTop(vals, struct); top.elaborate(); top.apply(DefaultPassGroup()); top.sim_reset(); top.sim_eval_combinational()
+    got = [(int(o.idx), int(o.val)) if struct else int(o) for o in top.o]
+    want = [(i, v) if struct else v for i, v in enumerate(vals)]
+    sh.count("constant_template_designs")
+    if got != want:
+      sh.violation("net-member-differs-from-writer-in-simulation", {"probe": "one constant object updated in place between its connections", "struct": struct,
+                   "ports_carry": got, "values_at_connection_time": want, "design_source": CONST_TMPL_SRC}, case=("consttmpl", case))
+  finally:
+    G.unload(mod)
+
+
 def run_shard(sh):
   for case in range(6 if sh.tier == "quick" else 60):
+    run_const_template(sh, sh.idx * 1000 + case)
     run_chain(sh, sh.idx * 1000 + case)
     run_ifc_swap(sh, sh.idx * 1000 + case)
   for case in range(sh.params["designs"]):
